@@ -11,16 +11,20 @@ tvars == <<parents, branches, head, tags, l>>
 TInit == l = 1 /\ GInit
 
 Dirty(kind) == kind \in {"modified", "staged", "untracked"}
+\* e.at = 0: observed in the main work tree (its root or a sub-directory); e.at = c: observed in a
+\* linked work tree (git worktree add --detach) at commit c - its own HEAD, no branch
 ObserveReason(e) ==
-  LET o == e.obs   exp == Expected(e.fmt) IN
+  LET o == e.obs
+      h == IF e.at = 0 THEN HeadCommit ELSE e.at
+      exp == ExpectedFrom(h, e.fmt) IN
   IF o.kind = "panic" THEN "panic"
   ELSE IF o.kind = "unparsable" THEN "unparsable"
   ELSE IF o.kind = "err" THEN (IF exp = {} THEN "ok" ELSE "refused-although-tagged")
   ELSE IF exp = {} THEN "version-without-valid-tag"
   ELSE IF ~\E x \in exp : x.tag = o.tag /\ x.c = o.tagc /\ x.distance = o.distance THEN "base-tag-or-distance"
   ELSE IF o.dirty # Dirty(e.wt) THEN "dirty"
-  ELSE IF o.branch # BranchReported THEN "branch"
-  ELSE IF o.headc # HeadCommit THEN "head-commit"
+  ELSE IF o.branch # (IF e.at = 0 THEN BranchReported ELSE "") THEN "branch"
+  ELSE IF o.headc # h THEN "head-commit"
   ELSE IF ~o.tag_time_ok THEN "tag-time"
   ELSE IF o.head_time # (IF Dirty(e.wt) THEN "now" ELSE "commit") THEN "head-time"
   ELSE "ok"
